@@ -170,7 +170,16 @@ pub fn file_pool() -> Vec<(String, Vec<u8>)> {
         }
     }
     // short texts behind 0..3 byte order marks: only the first mark is a mark, for every entry point alike
-    let tails = ["osu file format v9\n[General]\nMode: 1\n", "[Metadata]\nTitle:a\n", "osu file format v4", "a"];
+    let tails = [
+        "osu file format v9\n[General]\nMode: 1\n",
+        "[Metadata]\nTitle:a\n",
+        "osu file format v4",
+        "a",
+        // leading white space is content: an indented version line is not a version line
+        " osu file format v9\n[General]\nMode: 1\n",
+        "\n \n[General]\n Mode: 3\n",
+        "\r\n\r\nosu file format v5\n[General]\nMode: 2\n",
+    ];
     for k in 0..=3usize {
         for (i, tail) in tails.iter().enumerate() {
             let mut b: Vec<u8> = [0xEF, 0xBB, 0xBF].repeat(k);
@@ -327,6 +336,19 @@ fn level_c(acc_out: &mut Acc) -> Value {
             if via_path != base_map {
                 differ("from_path".into(), acc);
             }
+            // the inherent constructors of Beatmap and the trait's provided methods
+            let via = guarded(|| Beatmap::from_path(&path).map(|m| format!("{m:?}")).map_err(|e| format!("{:?}", e.kind())));
+            if via != base_map {
+                differ("Beatmap::from_path".into(), acc);
+            }
+            let via = guarded(|| Beatmap::from_bytes(bytes).map(|m| format!("{m:?}")).map_err(|e| format!("{:?}", e.kind())));
+            if via != base_map {
+                differ("Beatmap::from_bytes".into(), acc);
+            }
+            let via = guarded(|| rosu_map::from_path::<Trace>(&path).map_err(|e| format!("Err({:?})", e.kind()))).and_then(|r| r);
+            if via != base {
+                differ("from_path (trace decoder)".into(), acc);
+            }
             let via_file = guarded(|| {
                 std::fs::File::open(&path)
                     .and_then(|f| Beatmap::decode(BufReader::with_capacity(7, f)))
@@ -395,7 +417,7 @@ pub fn run(tier: Tier) -> i32 {
     let summary = Summary {
         rule: "(A) choice-tree exploration: every file of <= n bytes over the BOM/LF alphabet x every composition into chunks x \
                every placement of <= 1 (quick) / 2 (thorough) Interrupted answers, each refill of the reader a choice point; \
-               (B) every bundled file x 4 encodings and 16 short texts behind 0..3 UTF-8 byte order marks: every single cut offset (dense up to a size limit, else head/tail and line \
+               (B) every bundled file x 4 encodings and 28 short texts (some starting with white space) behind 0..3 UTF-8 byte order marks: every single cut offset (dense up to a size limit, else head/tail and line \
                boundaries +-2), interrupt placements, every pair of cuts on small files; (C) chunk sizes 1..64, BufReader \
                capacities 1..16, six entry points. Oracle: trace decoder (and Beatmap in C) equals the single-chunk result. \
                states = files + choice points, transitions = chunk/interrupt answers, evaluations = scheduled runs"
